@@ -317,15 +317,17 @@ class Exec:
             except Exception as e:  # pragma: no cover
                 out[name] = 'unprintable: %s' % e
         if p is not None:
-            if 'opens' in p.ghost:
+            for logname in ('opens', 'aead_vec', 'xof', 'ecb'):
+                if logname not in p.ghost:
+                    continue
                 opens = []
-                for ent in p.ghost['opens']:
+                for ent in p.ghost[logname]:
                     if ent[0] == 'fail':
                         opens.append(None)
                     else:
                         n = model.eval(ent[2], model_completion=True).as_long()
                         opens.append([model.eval(z3.Select(ent[1], bv64(i)), model_completion=True).as_long() for i in range(min(n, 4096))])
-                out['#opens'] = opens
+                out['#' + logname] = opens
             for k, v in p.ghost.items():
                 if k.startswith('in:'):
                     try:
@@ -542,6 +544,16 @@ class Exec:
             return bvv(WELL_KNOWN_DISC[variant], 64)
         ename = strip_generics(enum_path).split('::')[-1]
         infos = self.prog.enum_info(ename)
+        if infos and len(infos) > 1:
+            # same enum name in several modules: pick by module path
+            mod = '/'.join(re.sub(r'^(octo_squirrel|crate)::', '', strip_generics(enum_path)).split('::')[:-1])
+            pick = [i for i in infos if mod and (mod + '.rs' in i[0] or mod + '/' in i[0])]
+            if len(pick) == 1:
+                infos = pick
+            else:
+                infos = [i for i in infos if any(n == variant for n, _d in i[1])]
+                if len(infos) != 1:
+                    raise Inconclusive('ambiguous enum %s::%s' % (enum_path, variant))
         if infos:
             for _f, names in infos:
                 for n, d in names:
@@ -1064,6 +1076,11 @@ class Exec:
                 return Enum(self.disc_of(hm.group(1), variant), {}, ename)
             return Agg('struct', (), variant)
         if re.match(r'^[A-Za-z_][\w:]*$', s):
+            dt = getattr(self, '_dst_ty', None)
+            if dt and '::' not in s:
+                ename = strip_generics(dt).split('::')[-1]
+                if self.prog.enum_info(ename) and self._is_variant(ename, s):
+                    return Enum(self.disc_of(dt, s), {}, ename)
             return Agg('struct', (), s.split('::')[-1])
         raise Inconclusive('rvalue ' + s)
 
@@ -1204,13 +1221,10 @@ class Exec:
         return done
 
     def parsed(self, fn, bb):
-        cache = getattr(fn, '_parsed', None)
+        cache = fn._parsed
         if cache is None:
             cache = {}
-            try:
-                fn._parsed = cache
-            except AttributeError:
-                pass
+            fn._parsed = cache
         if bb not in cache:
             cache[bb] = [parse_stmt(s) for s in fn.blocks[bb]]
         return cache[bb]
@@ -1243,6 +1257,7 @@ class Exec:
                     continue
                 if k == 'assign':
                     b, proj = self.place(fr, st[1])
+                    self._dst_ty = fr.fn.locals.get(st[1]) if not proj else None
                     self.store(p.st, b, proj, self.rvalue(p, fr, st[2]))
                     continue
                 if k == 'goto':
@@ -1461,6 +1476,32 @@ class Exec:
         g = strip_generics(func)
         if g.startswith(PANIC_FNS) or func.startswith(PANIC_FNS):
             return [dict(panic=func)]
+        dm = re.match(r'^<dyn (.+?) as (.+?)>::(\w+)$', func)
+        if dm and args:
+            # dynamic dispatch: the receiver's concrete type is known to the executor
+            recv = self.deref_all(p.st, args[0]) if isinstance(args[0], Ref) else args[0]
+            tname = getattr(recv, 'name', None)
+            if tname:
+                tr = strip_generics(dm.group(2)).split('::')[-1]
+                cands = [f for f in self.prog.by_last.get(dm.group(3), []) if f.impl and f.impl[1] == tname and f.impl[0] == tr and f.impl[3] == dm.group(3)]
+                if len(cands) == 1:
+                    return [dict(inline=(cands[0], list(args), None))]
+            raise Inconclusive('dynamic dispatch on unknown receiver: ' + func)
+        cm = re.match(r'^<(.+) as (?:std::ops::)?(FnOnce|FnMut|Fn)<.*>>::(call_once|call_mut|call)$', func)
+        if cm and args:
+            cl = args[0]
+            if isinstance(cl, Ref):
+                cl = self.deref_all(p.st, cl)
+            from . import models as _m
+            body = _m._closure_fn(self, fr, cl, func)
+            if body is None and isinstance(cl, Agg) and cl.kind == 'fnitem':
+                body = self.prog.resolve(cl.name, fr.fn.crate)
+                if body is not None:
+                    targs = list(args[1].fields) if isinstance(args[1], Agg) else [args[1]]
+                    return [dict(inline=(body, targs, None))]
+            if body is not None:
+                targs = list(args[1].fields) if (len(args) > 1 and isinstance(args[1], Agg) and args[1].kind == 'tuple') else list(args[1:])
+                return [dict(inline=(body, [args[0]] + targs, None))]
         for rx, h in self.models:
             m = rx.search(func)
             if m:
